@@ -4,7 +4,7 @@
     stands for both the debug-build overflow panic and the release-build wrap),
     [UB] (unchecked read outside the input) and [OutOfFuel] (the greedy loop not
     terminating within its fuel, S |input| iterations). *)
-From RL Require Import Model.Decode Spec.SpecDecode Proofs.Totality.
+From RL Require Import Model.Decode Model.Cost Spec.SpecDecode Proofs.Totality Proofs.CostBound.
 
 Theorem C01_message_total : forall o b, bytes_ok b = true ->
   exists r rest, m_decode o b = Val (r, rest) /\
@@ -22,6 +22,29 @@ Proof. exact type_total. Qed.
 Theorem C01_loop_bound : forall n r, N.of_nat (length (fst (s_avps_n n r))) <= len r / 6 + 1.
 Proof. exact s_avps_n_count. Qed.
 
+(** the work performed is linear in the input.  [cost] (Model/Cost.v) charges one unit per
+    reader operation the decoder issues and one unit per octet handed out by [bytes(n)];
+    for every octet string and option set it is at most 3 units per input octet plus 12.
+    Together with [C01_message_total] (no [OutOfFuel]) this is the model-level content of
+    "never fails to terminate": there is no input on which the decoder does super-linear
+    work.  (Wall-clock time of the compiled code is outside any model; a watchdog covers it
+    on generated inputs only.) *)
+Theorem C01_work_linear : forall o b, bytes_ok b = true ->
+  m_decode_cost o b <= 3 * len b + 12.
+Proof. exact cost_message. Qed.
+
+Theorem C01_avps_work_linear : forall b, bytes_ok b = true ->
+  m_avps_cost b <= 3 * len b + 2.
+Proof. exact cost_avps. Qed.
+
+Theorem C01_type_work_linear : forall t p, cost (decode_avp t) p <= 8 + len p.
+Proof. exact cost_decode_avp. Qed.
+
+(** a concrete run: the 20-octet SCCRQ of the crate's documentation costs 21 units *)
+Example C01_cost_example :
+  m_decode_cost default_opts [19;32;0;20;0;2;0;3;0;4;0;5;0;8;0;0;0;0;0;1] = 21.
+Proof. vm_compute. reflexivity. Qed.
+
 (** non-vacuity: the D1 input of the pinned tree (Length = 4) is in the domain and is rejected *)
 Example C01_D1_input :
   bytes_ok [19;32;0;4;0;0;0;0;0;0;0;0] = true /\
@@ -32,3 +55,6 @@ Print Assumptions C01_message_total.
 Print Assumptions C01_avps_total.
 Print Assumptions C01_type_total.
 Print Assumptions C01_loop_bound.
+Print Assumptions C01_work_linear.
+Print Assumptions C01_avps_work_linear.
+Print Assumptions C01_type_work_linear.
